@@ -234,10 +234,52 @@ fn sweep(alpha: &[T], max: usize, label: &str) -> Stats {
     total
 }
 
+/// Long malformed (and a few well-formed) token sequences: the defect sits at the end of, or deep
+/// inside, an otherwise well-formed input of every size in `scale::sizes`.
+fn scaling(thorough: bool) -> Stats {
+    super::on_big_stack(move || {
+        let mut st = Stats::new();
+        let ctxs = generous_contexts();
+        let one = T::Lit("1");
+        let a = T::Ident("a");
+        let plus = T::Bin("+");
+        let rep = |ts: &[T], n: usize| -> Vec<T> { ts.iter().cycle().take(ts.len() * n).cloned().collect() };
+        for n in super::scale::sizes(thorough) {
+            let cat = |parts: &[Vec<T>]| -> Vec<T> { parts.concat() };
+            let fams: Vec<Vec<T>> = vec![
+                cat(&[rep(&[T::LParen], n), vec![one], rep(&[T::RParen], n - 1)]),
+                cat(&[rep(&[T::LParen], n - 1), vec![one], rep(&[T::RParen], n)]),
+                cat(&[rep(&[T::LParen], n), vec![one], rep(&[T::RParen], n)]),
+                cat(&[rep(&[one, plus], n), vec![one, one]]),
+                cat(&[rep(&[one, plus], n), vec![one]]),
+                cat(&[rep(&[one, plus], n)]),
+                cat(&[rep(&[one, T::Comma], n), vec![plus, one, one]]),
+                cat(&[rep(&[one, T::Semi], n), vec![T::Bin("="), one, a]]),
+                cat(&[rep(&[T::LParen], n), vec![one, one], rep(&[T::RParen], n)]),
+                cat(&[rep(&[a, T::LParen], n), vec![one], rep(&[T::RParen], n)]),
+                cat(&[rep(&[a, T::LParen], n), vec![one], rep(&[T::RParen], n), vec![T::LParen, T::RParen]]),
+                cat(&[rep(&[a], n), vec![one, one]]),
+                cat(&[rep(&[T::Minus], n)]),
+                cat(&[rep(&[T::Minus], n), vec![one, T::LParen, T::RParen]]),
+                cat(&[rep(&[one, T::Comma, one, T::Semi], n), vec![T::RParen]]),
+                cat(&[vec![T::LParen], rep(&[one, T::Comma, one, T::Semi], n)]),
+                cat(&[rep(&[one, plus, T::LParen], n), vec![one], rep(&[T::RParen], n), vec![one]]),
+                cat(&[rep(&[T::Not, T::Minus], n), vec![T::Lit("true"), T::Not]]),
+            ];
+            for f in fams {
+                check_seq(&f, &ctxs, &mut st);
+                st.count("scaling-family-sequences");
+            }
+        }
+        st
+    })
+}
+
 pub fn run(cfg: &Cfg) -> Report {
-    let (n_rep, n_wide) = cfg.tier.pick((7, 4), (8, 5));
+    let (n_rep, n_wide) = cfg.tier.pick((7, 4), (9, 5));
     let mut stats = sweep(&alphabet(), n_rep, "representative-alphabet");
     stats.merge(sweep(&wide_alphabet(), n_wide, "wide-alphabet"));
+    stats.merge(scaling(cfg.tier == Tier::Thorough));
     for ts in [
         vec![T::Bin("+"), T::Lit("1"), T::Lit("1")],
         vec![T::Lit("1"), T::Bin("+"), T::Lit("1"), T::LParen, T::RParen],
@@ -263,7 +305,7 @@ pub fn run(cfg: &Cfg) -> Report {
     Report {
         property: ID,
         level: "model_checking",
-        rule: format!("depth-first search over every token sequence of length <= {n_rep} over the 12-token class alphabet `1 a + - ! = += ( ) , ; true` and of length <= {n_wide} over the 34-token alphabet with every operator; a state is a token prefix, a transition appends one token, every state is fed to the real tokenizer/tree builder (and, if it precompiles although ill-formed, evaluated in 5 generous contexts). Non-trivial = classified unbalanced or ill-formed by the recogniser; each sequence is enumerated exactly once, so the count is of distinct sequences"),
+        rule: format!("depth-first search over every token sequence of length <= {n_rep} over the 12-token class alphabet `1 a + - ! = += ( ) , ; true` and of length <= {n_wide} over the 34-token alphabet with every operator; a state is a token prefix, a transition appends one token, every state is fed to the real tokenizer/tree builder (and, if it precompiles although ill-formed, evaluated in 5 generous contexts). Plus 18 scaling families (a missing or surplus parenthesis, a juxtaposition or a dangling operator at the end of or deep inside a long well-formed input) at every size 1..20 and up to 129 / 1..40 and up to 400. Non-trivial = classified unbalanced or ill-formed by the recogniser; each sequence is enumerated exactly once, so the count is of distinct sequences"),
         nontrivial_set: "counter:nontrivial-distinct",
         exhaustive: true,
         bound_completed: format!("length {n_rep} (class alphabet), {n_wide} (wide alphabet)"),
